@@ -271,7 +271,7 @@ func init() {
 		Doc:  "edge-rule label obligations over every AddEdge[Weighted] call site (DESIGN §4 EDGE)",
 		Run:  runEdge,
 		Floor: map[string]int{
-			"EDGE-T": 6, "EDGE-S": 6, "EDGE-N": 1, "EDGE-K": 10, "EDGE-V": 8,
+			"EDGE-T": 6, "EDGE-S": 6, "EDGE-N": 1, "EDGE-K": 10, "EDGE-V": 8, "EDGE-X": 6,
 		},
 	})
 }
@@ -346,6 +346,56 @@ func runEdge(c *Ctx) {
 				"an edge between two named value vertices requires equal names",
 				"Name relation: "+e.Rel["Name"], gs...)
 		}
+	}
+	// EDGE-X: the pass-through rules (G1–G8) are restricted by nothing but the reviewed conditions: kind filters,
+	// label relations between the two endpoints, the interface-kind/implements pair, self-exclusion and
+	// "consumer has no value yet". An additional condition silently narrows what can be derived (completeness).
+	for _, e := range edges {
+		if len(e.Class) != 2 || e.Class[0] != 'G' || e.Class == "G9" {
+			continue
+		}
+		extra := ""
+		ok := func(pth string) bool {
+			if pth == emptyStr {
+				return true
+			}
+			for _, f := range []string{"Name", "Type", "Subtype"} {
+				if pth == e.CF[f] || pth == e.PF[f] {
+					return true
+				}
+			}
+			return false
+		}
+		cBase, pBase := strings.TrimSuffix(e.CF["Type"], ".Type"), strings.TrimSuffix(e.PF["Type"], ".Type")
+		for _, l := range e.Lits {
+			switch {
+			case core.IsLoopBound(l):
+			case l.Kind == "cmp" && l.Op == token.EQL && (core.IsNilConst(l.X) || core.IsNilConst(l.Y)) && l.Pol:
+				// a dominating err == nil check
+			case l.Kind == "ok":
+				// kind filter on one of the endpoints
+				if ta, isTA := l.Of.(*ssa.TypeAssert); !isTA || !l.Pol || !(strings.Contains(cBase, core.Path(ta.X)) || strings.Contains(pBase, core.Path(ta.X))) {
+					extra = l.String()
+				}
+			case l.Kind == "cmp" && l.Op == token.EQL:
+				x, y := core.Path(l.X), core.Path(l.Y)
+				switch {
+				case ok(x) && ok(y):
+				case strings.HasPrefix(x, "(reflect.Type).Kind(") && y == "const:20" && x == "(reflect.Type).Kind("+e.CF["Type"]+")" && l.Pol:
+				case !l.Pol && ((strings.Contains(cBase, x) && strings.Contains(pBase, y)) || (strings.Contains(cBase, y) && strings.Contains(pBase, x))):
+					// raw != raw2 : an edge never joins a vertex with itself
+				default:
+					extra = l.String()
+				}
+			case l.Kind == "call" && l.Callee == "(reflect.Type).Implements" && l.Pol:
+			case l.Kind == "call" && l.Callee == core.RVIsValid && !l.Pol && len(l.Args) == 1 && core.Path(l.Args[0]) == cBase+".Value":
+			default:
+				extra = l.String()
+			}
+		}
+		c.R.Add("EDGE-X", e.Role+"|"+e.Class+"|no-unreviewed-restriction", e.Role, e.Pos, extra == "",
+			"a pass-through edge rule is restricted only by kind filters, label relations of its two endpoints, the interface-kind/implements pair, self-exclusion and `consumer has no value yet`",
+			ternary(extra == "", "only reviewed conditions", "additional condition: "+extra))
 	}
 	// EDGE-V: every vertex added to the graph is allocated for this graph (no vertex object, and hence no
 	// vertex value, survives from an earlier call or planning run)
